@@ -14,11 +14,11 @@ SegsOf(d) == CASE d = "z80" -> {"code"} [] d = "8051" -> {"code", "xdata"} [] d 
                [] d = "c30" -> {"code"}
 Limit(d) == IF d = "c30" THEN 1000000 ELSE 65536
 \* chunk sizes in units: around 1, the buffer size in bytes (512) for each granularity, and two buffers
-\* (the TI data pseudo-ops of the pinned tree overflow their 256-byte code buffer with longer argument lists --
-\*  a C03 finding -- so the word-granular dialects stay below it; the 512-byte boundary is crossed with z80/8051)
+\* (the TI data pseudo-ops of the pinned tree overflowed their 256-byte code buffer with more than 128 resp. 64
+\*  arguments -- found by this generator, repaired as a C03 fix -- so the long forms are exercised on purpose)
 Sizes(d) == CASE GranOf(d) = 1 -> {1, 2, 3, 254, 255, 256, 257, 258, 300, 400, 450}
-              [] GranOf(d) = 2 -> {1, 2, 3, 126, 127, 128}
-              [] GranOf(d) = 4 -> {1, 2, 3, 62, 63, 64}
+              [] GranOf(d) = 2 -> {1, 2, 3, 126, 127, 128, 129, 255, 256, 257, 300}
+              [] GranOf(d) = 4 -> {1, 2, 3, 62, 63, 64, 65, 127, 128, 129, 300}
 
 VARIABLES dial, act, pc, hist
 vars == <<dial, act, pc, hist>>
